@@ -48,12 +48,12 @@ func runMutantsImpl(c *Ctx, verif, repo string, extra map[string]any) {
 		}
 		var meta struct {
 			Property string `json:"property"`
-			AlsoRun  []string `json:"also_detected_by"`
+			Obsolete string `json:"obsolete_since"`
 		}
 		if json.Unmarshal(data, &meta) != nil {
 			continue
 		}
-		if meta.Property == c.Property {
+		if meta.Property == c.Property && meta.Obsolete == "" { // changes that a later fix made harmless are kept for the record only
 			jobs = append(jobs, job{filepath.Join(filepath.Dir(m), "patch.diff"), "breaking"})
 		}
 	}
